@@ -118,9 +118,10 @@ def gen_squares(t):
         for c in x.children(): go(c)
     go(t)
     return z3.substitute(t, *subs.values()) if subs else t
-def chk(S, unit_, fn, spec, pre=None, setup=None, split_side=False, witness_at=None, **kw):
+def chk(S, unit_, fn, spec, pre=None, setup=None, split_side=False, witness_at=None, gen_sq=False, **kw):
     """check_fn in real mode; spec(i, o, T) gets a Trig context bound to the executor that ran the code; setup(res, T) may instantiate true trigonometric facts on its table.
-    split_side: the executor's side conditions (domains, traps) are discharged one by one (their disjunction is much harder than each), squares generalised;
+    split_side: the executor's side conditions (domains, traps) are discharged one by one (their disjunction is much harder than each; gen_sq: squares generalised) and a
+    counterexample is reproduced when the native function returns NaN/inf;
     witness_at: the vacuity witness is sought at these input values (a free search for a model of all axioms can take long)"""
     box = {}
     def xh(res):
@@ -142,12 +143,36 @@ def chk(S, unit_, fn, spec, pre=None, setup=None, split_side=False, witness_at=N
     if split_side:
         seen = {}
         for kind_, cond, d in res.obligations:
-            c = gen_squares(cond)
+            c = gen_squares(cond) if gen_sq else cond
             if c.sexpr() in seen: continue
             seen[c.sexpr()] = 1
-            S.prove('%s.%s[%s]#%d' % (name, kind_, d[:60], len(seen)), z3.Not(c), hy, timeout=kw['timeout'], solver=kw['solver'], kind=kind_, functions=fl, mandatory=kw.get('mandatory', True),
-                    bounds=kw.get('bounds', ''), replay=lambda m: ('no-replay', {}))
+            oname = '%s.%s[%s]#%d' % (name, kind_, d[:60], len(seen))
+            S.prove(oname, z3.Not(c), hy, timeout=kw['timeout'], solver=kw['solver'], kind=kind_, functions=fl, mandatory=kw.get('mandatory', True), bounds=kw.get('bounds', ''), replay=nan_replay(S, unit_, fn, res, oname))
     return res
+def real_traps(S, unit_, fn, res, hy, name, bounds=''):
+    """assert/trap side conditions of a rounding-erased execution, one query; a counterexample is replayed in a sanitizer subprocess (a failing assert would abort this process)"""
+    tr = [cnd for kind_, cnd, d in res.obligations if kind_ in ('trap', 'unreachable')]
+    if not tr: return
+    f = unit_.fns[fn]; oname = name + '.trap-free'
+    def replay(m):
+        vals = S._model_inputs(m, res); bits = [[float_to_bits(float(v), ct_bits(c)) for v in row] for (c, n), row in zip(f.ins, vals)]
+        return ub_replay(unit_, fn, bits, {'unit': unit_.name, 'fn': fn, 'obligation': oname, 'property': S.pid, 'inputs': [[str(v) for v in row] for row in vals]}, 'trap')
+    S.prove(oname, z3.Not(z3.Or(*tr)), hy, timeout=S.cap(20, 60), solver='nra', kind='trap', functions=['w_' + fn], bounds=bounds, replay=replay)
+def nan_replay(S, unit_, fn, res, oname):
+    """a violated domain condition (division by zero, acos/sqrt outside its domain) is reproduced when the native function returns NaN or an infinity on the nearest floats"""
+    def replay(m):
+        vals = S._model_inputs(m, res); f = unit_.fns[fn]
+        bits = [[float_to_bits(float(v), ct_bits(c)) for v in row] for (c, n), row in zip(f.ins, vals)]
+        info = {'unit': unit_.name, 'fn': fn, 'obligation': oname, 'property': S.pid, 'inputs': [[str(v) for v in row] for row in vals]}
+        for cxx in ('g++', 'clang++-14'):
+            nat = unit_.call_native(fn, bits, cxx=cxx); info['native_out_' + cxx] = [[hex(v) for v in r] for r in nat]
+            for (c, n), row in zip(f.outs, nat):
+                for v in row:
+                    d = bits_to_float(v, ct_bits(c))
+                    if d != d or abs(d) == float('inf'):
+                        info['note'] = 'native result is NaN/inf for finite inputs'; return 'reproduced', info
+        return 'not-reproduced', info
+    return replay
 
 def chk_rw(S, fn, ins, pre, spec, inner, *, name=None, known=(), bounds='', mandatory=True, solver='nra', inner_solver=None, witness_at=None):
     """Nested calls that are out of reach monolithically.  Chain: (1) each inner call (fn2, ins2, want2, tag), executed on the same executor (same sqrt/trig tables), returns want2 - proved;
@@ -158,7 +183,8 @@ def chk_rw(S, fn, ins, pre, spec, inner, *, name=None, known=(), bounds='', mand
     for f2, ins2, want2, tag in inner:
         rr = sym_call(U, f2, ins=ins2, mode='real', ex=ex)
         for j, wv in enumerate(want2):
-            S.prove('%s.inner %s[%d]' % (name, tag, j), rr.outs[0][j].r == wv, list(pre) + rr.axioms, timeout=to, solver=inner_solver or solver, kind='spec', functions=fl, bounds=bounds, mandatory=mandatory)
+            S.prove('%s.inner %s[%d]' % (name, tag, j), rr.outs[0][j].r == wv, list(pre) + rr.axioms, timeout=to, solver=inner_solver or solver, kind='spec', functions=fl, bounds=bounds, mandatory=mandatory,
+                    replay=lambda m: ('no-replay', {'note': 'inner link of a rewrite chain; the outer obligation is the one replayed natively'}))
             sub.append((z3.simplify(rr.outs[0][j].r), wv))
     n_inner = len(ex.obligations)
     r = sym_call(U, fn, ins=ins, mode='real', ex=ex)
@@ -230,7 +256,7 @@ def job_slerp(t, fn='slerp', kind='slerp', k=None):
             return [('shape with the weights swapped', RGoal('eq', out[0] * A['S'], A['su'] * A['x'][0] + A['s1'] * A['z'][0], nf)),
                     ('shape with -z', RGoal('eq', out[1] * A['S'], A['s1'] * A['x'][1] - A['su'] * A['z'][1], nf)),
                     ('fallback on the arc branch', RGoal('eq', out[2], A['x'][2] * (1 - A['t']) + A['z'][2] * A['t'], nf))]
-        chk(S, U, name, spec, pre, setup=lambda res, T: arc_setup(res, T, kind, k), mutant=mutant,
+        chk(S, U, name, spec, pre, setup=lambda res, T: arc_setup(res, T, kind, k), mutant=mutant, split_side=True,
             bounds='all real quaternions x, y%s; every real t; chain link (code): shape of the result and the trig facts used by lemmas.*' % (' with <x,y> > -1' if kind == 'mix' else ''))
         # end points: t = 0 and t = 1 as separate executions of the same code with the literal factor
         for tv in (0, 1):
@@ -244,7 +270,7 @@ def job_slerp(t, fn='slerp', kind='slerp', k=None):
                 return ([('t=1[%d]: out==(-1)^k z (arc branch)' % j, RGoal('eq', out[j], -z[j], z3.Not(fb))) for j in range(4)]
                         + [('t=1.fallback[%d]: out==z' % j, RGoal('eq', out[j], z[j], fb)) for j in range(4)])
             x_, y_ = [z3.Real('a%d' % j) for j in range(4)], [z3.Real('b%d' % j) for j in range(4)]
-            chk(S, U, name, spec_e, pre, ins=[x_, y_, [z3.RealVal(tv)]], name='c13.%s.t=%d' % (name, tv),
+            chk(S, U, name, spec_e, pre, ins=[x_, y_, [z3.RealVal(tv)]], name='c13.%s.t=%d' % (name, tv), split_side=True,
                 bounds='all real quaternions x, y%s; t = %d: result is %s' % (' with <x,y> > -1' if kind == 'mix' else '', tv, 'x' if tv == 0 else
                        ('y' if kind == 'mix' else 'z = +-y, the representative with <x,z> >= 0%s' % (' (times (-1)^k on the arc branch: theta+k*pi is the angle travelled)' if k is not None else ''))))
     return run
@@ -371,7 +397,9 @@ def job_lerp(t):
             S.prove(oname, g, rng, timeout=S.cap(30, 90), kind='spec', functions=fl, replay=S._replayer(res, (spec_fp, label), None, U, name, 'fp', oname), vars_=[v for row in i for v in row],
                     bounds='all bit patterns of x, y; 0 <= a <= 1 (the asserted range); result bit-identical (one NaN) to the documented expression')
         traps = [cnd for kind_, cnd, d in res.obligations if kind_ in ('trap', 'unreachable')]
-        S.prove('c13.%s.trap-free on 0<=a<=1' % name, z3.Not(z3.Or(*traps)) if traps else z3.BoolVal(True), rng, timeout=S.cap(20, 60), kind='trap', functions=fl, bounds='all bit patterns of x, y; 0 <= a <= 1')
+        oname = 'c13.%s.trap-free on 0<=a<=1' % name
+        S.prove(oname, z3.Not(z3.Or(*traps)) if traps else z3.BoolVal(True), rng, timeout=S.cap(20, 60), kind='trap', functions=fl, bounds='all bit patterns of x, y; 0 <= a <= 1',
+                replay=S._replayer(res, None, None, U, name, 'fp', oname, side_kind='trap'), vars_=[v for row in i for v in row])
         other = [cnd for kind_, cnd, d in res.obligations if kind_ not in ('trap', 'unreachable')]
         if other: S.prove('c13.%s.no-ub' % name, z3.Not(z3.Or(*other)), rng, timeout=S.cap(20, 60), kind='ub', functions=fl)
         # the asserts are live: outside [0,1] (and for NaN) a trap is reachable
@@ -383,7 +411,7 @@ def job_lerp(t):
         def spec_r(i, o, T):
             x, y, a_ = i[0], i[1], i[2][0]
             return [('lerp[%d] == x*(1-a) + y*a (exact)' % j, REq(rv(o[0][j]), x[j] * (1 - a_) + y[j] * a_)) for j in range(4)]
-        chk(S, U, name, spec_r, pre_r, name='c13.%s.real' % name, bounds='all real quaternions, 0 <= a <= 1 (asserted range, traps unreachable); rounding-erased',
+        chk(S, U, name, spec_r, pre_r, name='c13.%s.real' % name, bounds='all real quaternions, 0 <= a <= 1 (asserted range; the traps are decided bit-precisely above); rounding-erased', side=False,
             mutant=lambda i, o, T: [('weights swapped', REq(rv(o[0][0]), i[0][0] * i[2][0] + i[1][0] * (1 - i[2][0])))])
         # gtx/compatibility lerp (scalar, vector with scalar and with vector factor): documented as x*(1-a) + y*a for every a
         for cf, n, vecfac in (('clerp1', 1, False), ('clerp4', 4, False), ('clerp3v', 3, True)):
@@ -417,13 +445,14 @@ def job_dqlerp(t):
         def spec_d(i, o, T):
             x, y, a = i[0], i[1], i[2][0]; kk = z3.If(dot(x[:4], y[:4]) < 0, -a, a)
             return [('dualquat.lerp[%d] == x*(1-a) + y*(+-a)' % j, REq(rv(o[0][j]), x[j] * (1 - a) + y[j] * kk)) for j in range(8)]
-        chk(S, U, 'dqlerp_' + t, spec_d, pre_d, bounds='all dual quaternions, 0 <= a <= 1 (asserted range, traps unreachable); rounding-erased',
-            mutant=lambda i, o, T: [('no sign choice', REq(rv(o[0][5]), i[0][5] * (1 - i[2][0]) + i[1][5] * i[2][0]))])
+        rd = chk(S, U, 'dqlerp_' + t, spec_d, pre_d, bounds='all dual quaternions, 0 <= a <= 1 (asserted range); rounding-erased', side=False,
+                 mutant=lambda i, o, T: [('no sign choice', REq(rv(o[0][5]), i[0][5] * (1 - i[2][0]) + i[1][5] * i[2][0]))])
+        if rd is not None: real_traps(S, U, 'dqlerp_' + t, rd, pre_d(rd.ins) + rd.axioms, 'c13.dqlerp_' + t, bounds='all dual quaternions, 0 <= a <= 1: the asserts cannot fire')
         for tv in (0, 1):
             def spec_de(i, o, T, tv=tv):
                 x, y = i[0], i[1]; sg = z3.If(dot(x[:4], y[:4]) < 0, -ONE, ONE)
                 return [('dualquat.lerp.t=%d[%d]' % (tv, j), REq(rv(o[0][j]), x[j] if tv == 0 else y[j] * sg)) for j in range(8)]
-            chk(S, U, 'dqlerp_' + t, spec_de, None, ins=[[z3.Real('a%d' % j) for j in range(8)], [z3.Real('b%d' % j) for j in range(8)], [z3.RealVal(tv)]], name='c13.dqlerp_%s.t=%d' % (t, tv),
+            chk(S, U, 'dqlerp_' + t, spec_de, None, side=False, ins=[[z3.Real('a%d' % j) for j in range(8)], [z3.Real('b%d' % j) for j in range(8)], [z3.RealVal(tv)]], name='c13.dqlerp_%s.t=%d' % (t, tv),
                 bounds='a = %d: result is %s' % (tv, 'x' if tv == 0 else '+-y (sign of <x.real,y.real>)'))
         # the asserts are live
         res = sym_call(U, 'dqlerp_' + t, mode='real', ex=mkex(U, 'real', 16)); a = res.ins[2][0]
@@ -447,7 +476,7 @@ def job_shortmix(t):
                   ('atan2.y==sqrt(1-<x,z>^2)', RGoal('eq', T.inv_arg('atan2', 0, 0, A['R']), A['R'], nf)), ('atan2.x==<x,z>', RGoal('eq', T.inv_arg('atan2', 0, 1, A['C']), A['C'], nf)),
                   ('sin(theta)==sqrt(1-<x,z>^2)', RGoal('eq', A['S'], A['R'], nf))]
             return g + arc_goals(A, out, nf, fb)
-        chk(S, U, name, spec, None, setup=lambda res, T: arc_setup(res, T, 'short'),
+        chk(S, U, name, spec, None, setup=lambda res, T: arc_setup(res, T, 'short'), split_side=True,
             bounds='all real quaternions x, y; every real a (a <= 0 -> x, a >= 1 -> y, else the slerp shape with theta = atan2(sqrt(1-c^2), c) resp. the affine blend above the threshold)')
     return run
 
